@@ -182,6 +182,8 @@ Definition norm_go (g : garg) : option narg :=
   | (GGravity, A_fixbytes 32) => Some (NGravity, TS SBytes32)
   | (GConst s, A_fixbytes 32) => Some (NConst (b32_of_bytes (bytes_of_string s)), TS SBytes32)
   | (GField CI64 p, A_uint 256) => Some (NField true p, TS SUint256)
+  | (GField CU64 p, A_uint 256) => Some (NField false p, TS SUint256)
+  | (GMap CU64 c p, A_arr (A_uint 256)) => Some (NMap false c p, TArr SUint256)
   | (GField CAddr p, A_address) => Some (NField false p, TS SAddress)
   | (GField CStr p, A_address) => Some (NField false p, TS SAddress)
   | (GField CHex p, A_bytes) => Some (NField false p, TBytes)
